@@ -36,6 +36,7 @@ def run(ctx):
                      timeout=1800)
     ctx.add_family(agg)
     strict_compile(ctx, badp)
+    file_history(ctx)
     for f in ctx.known():
         ctx.witness(f)
     ctx.exhaustive = True
@@ -112,3 +113,51 @@ def strict_compile(ctx, progs):
         shutil.rmtree(d, ignore_errors=True)
     ctx.replays += 2 * n
     ctx.sample({"strict_compile_template": C.concretize(progs[0], 0).source})
+
+
+def file_history(ctx):
+    """the same for a file template whose file is edited (auto_reload): while the file holds an invalid expression every
+    use of the strict template fails with the ExpressionError -- it never falls back to what it compiled before --
+    and the non-strict template raises it exactly when rendering reaches the expression"""
+    import shutil
+    import tempfile
+    sys.path.insert(0, REPO_SRC)
+    from chameleon import PageTemplateFile
+    from chameleon.exc import ExpressionError
+    good = '<p tal:condition="show">v%d ${1 + 1}</p>'
+    bad = '<p tal:condition="show">v%d ${1 +}</p>'
+    d = tempfile.mkdtemp(prefix="c19f_")
+    try:
+        path = os.path.join(d, "t.pt")
+        for strict in (True, False):
+            t = None
+            plan = [("good", 1), ("bad", 2), ("bad", 2), ("good", 3), ("bad", 4), ("bad", 4), ("bad", 4), ("good", 5)]
+            stamp = 1000
+            last = None
+            for kind, v in plan:
+                if (kind, v) != last:
+                    stamp += 10
+                    open(path, "w").write((good if kind == "good" else bad) % v)
+                    os.utime(path, (stamp, stamp))
+                    last = (kind, v)
+                if t is None:
+                    t = PageTemplateFile(path, auto_reload=True, strict=strict)
+                for show in (False, True):
+                    ctx.replays += 1
+                    try:
+                        got = t(show=show)
+                    except ExpressionError:
+                        got = "ExpressionError"
+                    except Exception as e:   # noqa
+                        got = "EXC " + type(e).__name__
+                    if kind == "good":
+                        want = ("<p>v%d 2</p>" % v) if show else ""
+                    else:
+                        want = "ExpressionError" if (strict or show) else ""
+                    if got != want:
+                        ctx.violation("file template (auto_reload, strict=%s), file versions %s: with the file at version %d (%s) and show=%s "
+                                      "the call gives %r, expected %r" % (strict, [p[1] for p in plan], v, kind, show, got, want),
+                                      dict(kind="strict-file-history"))
+                        return
+    finally:
+        shutil.rmtree(d, ignore_errors=True)
